@@ -8,7 +8,7 @@ import nauyaca.server.middleware as mw
 from nauyaca.server.config import ServerConfig
 from nauyaca.server.middleware import AccessControl, AccessControlConfig
 
-from vf import HarnessError, Ob, V, pick
+from vf import HarnessError, Ob, V, internal, pick
 from vf.capture import capture, inner_protocol
 from vf.smt import decide
 from vf.stubs import drive
@@ -146,7 +146,7 @@ def _config(enabled, ai, di, default_allow, pi, rate):
     if bad_entry and enabled:
         return V(False)                       # a list entry that cannot be interpreted must prevent start-up
     proto = inner_protocol(cap)
-    chain = proto.middleware
+    chain = internal(proto, "middleware")
     peer = PEERS[pi]
     if chain is None:
         got = True
